@@ -444,3 +444,68 @@ theorem optimalBatchSizes_length (n maxB : Nat) : (optimalBatchSizes n maxB).len
   rw [optimalBatchSizes_eq]; simp
 
 end SharkVerif.Import
+
+namespace SharkVerif.Import
+
+/-! ### label scan on non-negative labels -/
+
+theorem allSome_map_some {α : Type} (l : List α) : allSome (l.map some) = some l := by
+  induction l with
+  | nil => rfl
+  | cons a t ih => simp [allSome, ih]
+
+theorem scan_nonneg (ls : List Int) (hnn : ∀ l ∈ ls, 0 ≤ l) : ∀ (s : LabelScan), s.binary = false → 0 ≤ s.minPos →
+    (ls.foldl LabelScan.step s).binary = false ∧ 0 ≤ (ls.foldl LabelScan.step s).minPos ∧
+    (ls.foldl LabelScan.step s).minPos ≤ s.minPos ∧ ∀ l ∈ ls, (ls.foldl LabelScan.step s).minPos ≤ l := by
+  induction ls with
+  | nil => intro s hb hm; exact ⟨hb, hm, Int.le_refl _, by simp⟩
+  | cons a t ih =>
+    intro s hb hm
+    have ha : 0 ≤ a := hnn a (by simp)
+    have hne : a ≠ -1 := by omega
+    simp only [List.foldl_cons]
+    have hstep : (s.step a).binary = false ∧ 0 ≤ (s.step a).minPos ∧ (s.step a).minPos ≤ s.minPos ∧ (s.step a).minPos ≤ a := by
+      unfold LabelScan.step
+      rw [if_neg hne]
+      split
+      · exact ⟨hb, ha, by simp; omega, by simp⟩
+      · split
+        · exact ⟨hb, hm, Int.le_refl _, by simp; omega⟩
+        · exact ⟨hb, hm, Int.le_refl _, by omega⟩
+    have := ih (fun l hl => hnn l (by simp [hl])) (s.step a) hstep.1 hstep.2.1
+    refine ⟨this.1, this.2.1, Int.le_trans this.2.2.1 hstep.2.2.1, ?_⟩
+    intro l hl
+    rcases List.mem_cons.mp hl with rfl | hl
+    · exact Int.le_trans this.2.2.1 hstep.2.2.2
+    · exact this.2.2.2 l hl
+
+/-- class indices that contain class 0 pass the label logic unchanged -/
+theorem classLabels_nat (ls : List Nat) (h0 : 0 ∈ ls) :
+    classLabels (ls.map fun (l : Nat) => some (Int.ofNat l)) = some ls := by
+  have hmap : (ls.map fun (l : Nat) => some (Int.ofNat l)) = (ls.map Int.ofNat).map some := by simp
+  unfold classLabels
+  rw [hmap, allSome_map_some]
+  simp only
+  have hnn : ∀ l ∈ ls.map Int.ofNat, 0 ≤ l := by
+    intro l hl; obtain ⟨n, _, rfl⟩ := List.mem_map.mp hl; exact Int.natCast_nonneg n
+  have hany : (ls.map Int.ofNat).any (fun l => decide (l < -1)) = false := by
+    rw [List.any_eq_false]; intro l hl; have := hnn l hl; simp; omega
+  rw [hany]
+  simp only [Bool.false_eq_true, if_false]
+  have hs := scan_nonneg _ hnn {} rfl (by decide)
+  have hmin : (scanLabels (ls.map Int.ofNat)).minPos = 0 := by
+    have h1 := hs.2.2.2 0 (List.mem_map.mpr ⟨0, h0, rfl⟩)
+    have h2 := hs.2.1
+    unfold scanLabels; omega
+  have hok : (scanLabels (ls.map Int.ofNat)).ok = true := by
+    unfold LabelScan.ok; simp [hmin]
+  rw [hok]
+  simp only [if_true, Option.some.injEq]
+  have hb : (scanLabels (ls.map Int.ofNat)).binary = false := hs.1
+  rw [List.map_map]
+  conv => rhs; rw [← List.map_id ls]
+  apply List.map_congr_left
+  intro l _
+  simp [normLabel, hb, hmin]
+
+end SharkVerif.Import
